@@ -7,9 +7,19 @@ MANIFEST = dict(
     design="4/C01")
 
 
+def select(r):
+    if r["kind"] != "trans":
+        return False
+    if beacon.spec_accepts(r):
+        return True
+    # an honest block that only fails the Spec's final state-root comparison while zrnt accepted it: zrnt computed a
+    # different post-state than the Spec for an otherwise valid block (the producer fills in zrnt's own root)
+    return (not r["ok"]) and "kind=honest" in r["step"] and "spec-stage=state-root" in r["detail"]
+
+
 def make_check():
     return beacon.BeaconCheck(
-        "C01", lambda r: r["kind"] == "trans" and beacon.spec_accepts(r), beacon.judge_plain,
+        "C01", select, beacon.judge_plain,
         rule="every `trans` record on which the Spec accepts the block: zrnt's verdict and post-state bytes vs the Spec's. distinct = (chain, record); non-trivial = all (every block carries at least randao/eth1 processing; operation mix in generator_distribution)",
         make_targets=["Properties/C01.vo", "Beacon/Run.vo", "Beacon/Refine/BlockImplRun.vo"], trust=beacon.BEACON_TRUST,
         extra_streams=["C01IMPL"],
